@@ -8,7 +8,7 @@ from concurrent.futures import ThreadPoolExecutor
 
 import edges
 import replay as rp
-from vlib import HARNESS, NCPU, Inconclusive, go_build, phase, workdir
+from vlib import HARNESS, NCPU, Inconclusive, go_build, phase, seed, workdir
 
 CFG = """SPECIFICATION Spec
 CONSTANTS
@@ -29,12 +29,14 @@ ADAPTOR = os.path.join(HARNESS, "adaptors", "bridge.js")
 BYVAL = ("ss", "ifs")
 # long histories over the operations that create, move, detach and use references
 CORE = ("hold", "set", "hsetF", "sort", "pop", "reverse", "goSetF", "goAppend", "splice")
+# a reference kept across shrinking, re-growing within the capacity and re-allocating (the element-wrapper cache of the slice wrapper)
+DEEP = ("hold", "len", "push", "get", "hsetF")
 
 
-def plan(kind, len0=2, cap0=None, nh=2, maxops=3, rich=0, opset=(), lean=True):
+def plan(kind, len0=2, cap0=None, nh=2, maxops=3, rich=0, opset=(), lean=True, share=None):
     """lean: replay a second time observing through the Go side only (kinds whose wrapper and host share one header)"""
     return dict(kind=kind, len0=len0, cap0=cap0 if cap0 is not None else len0, nh=nh, maxops=maxops, rich=rich, opset=tuple(opset),
-                lean=lean and kind not in BYVAL and kind != "graph")
+                lean=lean and kind not in BYVAL and kind != "graph", share=share)
 
 
 def plans(thorough):
@@ -54,11 +56,13 @@ def plans(thorough):
         out.append(plan(k, len0=2, cap0=c, maxops=4, lean=False))
     # five operations over the reference-handling core
     out.append(plan("ss", cap0=3, maxops=5, opset=CORE[:-1], lean=False))
+    out.append(plan("pss", len0=3, cap0=3, nh=1, maxops=7, opset=DEEP, lean=False))
     return out
 
 
 def tag_of(p):
-    return "%s-l%dc%d-h%d-m%d-r%d%s" % (p["kind"], p["len0"], p["cap0"], p["nh"], p["maxops"], p["rich"], "-core" if p["opset"] else "")
+    return "%s-l%dc%d-h%d-m%d-r%d%s" % (p["kind"], p["len0"], p["cap0"], p["nh"], p["maxops"], p["rich"],
+                                        "-deep" if p["opset"] == DEEP else "-core" if p["opset"] else "")
 
 
 def init_state(p):
@@ -98,7 +102,7 @@ def run_plan(binp, wd, p, tlc_workers, threads, thorough):
     g, st = edges.build_graph("Bridge", cfg, gwd, init, obs0=init, workers=tlc_workers, timeout=2400, heap="6g")
     t1 = time.time()
     modes = [False, True] if p["lean"] else [False]
-    jobs = [{"args": ["-adaptor", prefix_file(gwd, p, lean) + "," + ADAPTOR], "tag": "lean" if lean else "full"} for lean in modes]
+    jobs = [{"args": ["-adaptor", prefix_file(gwd, p, lean) + "," + ADAPTOR], "tag": "lean" if lean else "full", "share": p.get("share")} for lean in modes]
     res = rp.run_jobs(binp, g, gwd, jobs, conc=len(jobs), threads=threads, walks=200 if thorough else 20, walklen=p["maxops"],
                       maxtour=p["maxops"] + 1, timeout=3000)
     return p, st, modes, res, round(t1 - t0, 1), round(time.time() - t1, 1)
